@@ -24,6 +24,7 @@ THEOREMS = [f'Gnpy.Edfa.{t}' for t in (
     'total_out_le_pmax', 'flat_total_gain', 'ase_formula', 'ase_referred_to_input', 'ase_noiseless_booster',
     'nf_at_gmax', 'nf_at_gmin', 'estimate_unclipped', 'estimate_accepts_close', 'nf_antitone_in_gain', 'nf_pad_db_for_db',
     'nf_fixed_gain', 'nf_advanced_at_gmax', 'dual_stage_friis', 'flat_profile_exact', 'single_channel_profile',
+    'gain_profile_flat', 'nf_no_pad', 'call_spec',
     'out_of_band_dropped', 'in_band_kept', 'demux_sublist', 'call_none_iff_no_channel_in_band',
     'gain_profile_normalised_partial')]
 PARTIAL = ['gain_profile_normalised_partial: under tilt or gain ripple the secant step of Edfa._gain_profile only '
